@@ -13,7 +13,10 @@ for d in sorted(glob.glob('/verif/seeded/C*-*')):
     caught = [k for k, v in runs.items() if v.get('exit') == 1]
     missed = [k for k, v in runs.items() if v.get('exit') == 0]
     other = [f"{k}(exit {v.get('exit')})" for k, v in runs.items() if v.get('exit') not in (0, 1)]
-    rows.append((name, summ, need, conf, ', '.join(caught) or '-', ', '.join(missed + other) or '-'))
+    silent = ', '.join(missed + other) or '-'
+    if m.get('assessment'):
+        silent += ' (' + m['assessment'].split(':')[0] + ')'
+    rows.append((name, summ, need, conf, ', '.join(caught) or '-', silent))
 print('| seeded change | what was changed | needs to manifest | confirmed (suite passes, demo fails/passes) | caught by | run but silent |')
 print('|---|---|---|---|---|---|')
 for r in rows:
